@@ -38,6 +38,7 @@ Notes: use --offline. The lib is `mqtt_proto`; see src/lib.rs, src/common, src/v
 '''
 
 HINTS = {
+ 7: "This round, prefer changes whose effect comes from WHERE the new code sits rather than from a wrong constant: a pre-check or fast path placed in front of a correct loop or in the caller of a correct helper; a post-processing step after a correct decoder or encoder (normalising, clamping, de-duplicating, sorting, trimming, defaulting a value that was just decoded or is about to be encoded); a condition on one field that depends on a different field of the same packet; validation moved from a shared helper into only some of its callers (or the reverse); a wrapper type / builder / `From` impl that silently adjusts a value on its way in or out; a cache or memo keyed on too little. Also welcome: asymmetric handling of the two directions (encoder stricter or laxer than decoder), and behaviour that differs between `decode` of a full packet and decoding the same body through the body type's own public `decode_async`/`encode` entry points.",
  6: "This round, prefer changes that live in places a per-function review does not look at: inside a `macro_rules!` definition (one arm, one repetition, one `$(...)?`), in a generic helper or blanket impl used by many packet types, in a trait's default method, in a `cfg`-independent re-export or type alias, in code that only ONE of the three front-ends (sync `decode`, `decode_async`, poll-based `PollPacket`) goes through, in only one of the two protocol families where the sibling stays correct, or in the interaction between a *public constructor / setter* and the encoder (a value the constructor accepts but the encoder or decoder mishandles). Also welcome: off-by-one at an exact protocol limit (127/128, 16383/16384, 65535, 268435455), behaviour that differs only when an optional section is present but EMPTY (empty property block, empty payload, empty user name, zero-length string), and state that survives from one packet to the next on a reused decoder state object.",
  5: "Any mechanism is welcome this round; favour changes that a reviewer would wave through: a bug fix that is right for the reported case and wrong for a neighbouring one, a micro-optimisation, a defensive limit, a convenience API added next to existing code, a dependency-style helper replaced by a hand-written one (or the reverse), an error message / variant tidied up, a spec citation applied to the wrong protocol version or packet type.",
  4: "Prefer, this round, VALUE-LEVEL slips that keep every length and every control-flow shape intact: two same-typed fields or values swapped on one side only (encoder or decoder); a value written from / decoded into the wrong but type-compatible field; a constant that is almost right (one bit, one value, one enum variant off); an operation applied in the wrong order; a comparison with the wrong operand; a change in a rarely examined impl (Hash, Ord, PartialEq, Display, Default, From/TryFrom conversions, Clone, a `new_*` convenience constructor, a public helper such as total_len/header_len) that the property still depends on; a change that affects only one protocol family or one packet type of several siblings. Also welcome: changes whose effect depends on *two* features being combined (e.g. a will with properties AND a user name).",
